@@ -167,7 +167,7 @@ class RegVisitQubit:
     raises_only = ("JaqalError",)
 
 
-@contract("core.algorithm.fill_in_let:LetFiller.visit_NamedQubit", props=["C05", "C06"])
+@contract("core.algorithm.fill_in_let:LetFiller.visit_NamedQubit", props=["C05", "C06", "C10"])
 class LetVisitQubit:
     """a qubit reference is re-expressed by name: the alias name itself for a declared single-qubit alias, else
     array_item(source name, index) with a let index replaced by its environment value and a parameter index by its name"""
